@@ -17,10 +17,522 @@ theorem enc_entry (bo : ByteOrder) (off c : Nat) (t : Ty) (v : Val) (bs : List U
     Base.fixedSize, Base.bound, Base.align, padLen_one]
   by_cases hc : c < 256
   · by_cases ht : variantTypeOk t = true
-    · simp only [hc, ht, if_true, true_and, pow_one]
-      trace_state
-      sorry
+    · simp only [hc, ht, if_true, true_and, Nat.pow_one]
+      have e1 : (zeros 0 ++ bytesOf bo 1 c).length = 1 := by simp
+      rw [e1, bytesOf_one bo c hc]
+      cases enc bo (off + padLen 8 off + 1 + (sigBytes t).length + 2) t v with
+      | none => simp
+      | some body => simp [zeros, eq_comm]
     · simp [hc, ht]
   · simp [hc]
+
+/-! ### raw bytes of the entries the marshaller writes -/
+
+/-- padding to 8, field code, the one-character signature of a basic type -/
+def hdr8 (off code : Nat) (ch : UInt8) : List UInt8 :=
+  zeros (padLen 8 off) ++ [UInt8.ofNat code, 1, ch, 0]
+
+theorem hdr8_length (off code : Nat) (ch : UInt8) : (hdr8 off code ch).length = padLen 8 off + 4 := by
+  simp [hdr8]
+
+theorem fieldStart_eq (code : Nat) (ch : UInt8) (buf : List UInt8) :
+    fieldStart code ch buf = buf ++ hdr8 buf.length code ch := by
+  have : padLen 4 (padTo 8 buf ++ [UInt8.ofNat code, 1, ch, 0]).length = 0 := by
+    simp only [padTo, List.length_append, zeros_length, List.length_cons, List.length_nil, padLen]
+    omega
+  simp only [fieldStart]
+  rw [padTo, this]
+  simp [padTo, hdr8, zeros]
+
+theorem variantTypeOk_base (b : Base) : variantTypeOk (.base b) = true := by
+  cases b <;> decide
+
+theorem sigBytes_base (b : Base) : sigBytes (.base b) = [UInt8.ofNat b.char.toNat] := by
+  simp [sigBytes, Ty.toStr]
+
+/-- the entries `marshal` writes: a u32, a string-like, or a signature in the variant -/
+inductive Simple : Entry → Prop
+  | u32 (c n : Nat) : Simple (c, .base .u32, .num n)
+  | str (c : Nat) (s : List UInt8) : Simple (c, .base .string, .str s)
+  | path (c : Nat) (s : List UInt8) : Simple (c, .base .objpath, .str s)
+  | sig (c : Nat) (s : List UInt8) : Simple (c, .base .signature, .str s)
+
+def rawEntry (bo : ByteOrder) (off : Nat) : Entry → List UInt8
+  | (c, .base .u32, .num n) => hdr8 off c 117 ++ bytesOf bo 4 n
+  | (c, .base .string, .str s) => hdr8 off c 115 ++ (bytesOf bo 4 s.length ++ (s ++ [0]))
+  | (c, .base .objpath, .str s) => hdr8 off c 111 ++ (bytesOf bo 4 s.length ++ (s ++ [0]))
+  | (c, .base .signature, .str s) => hdr8 off c 103 ++ (UInt8.ofNat s.length :: (s ++ [0]))
+  | _ => []
+
+def encOk : Entry → Prop
+  | (c, .base .u32, .num n) => c < 256 ∧ n < 256 ^ 4
+  | (c, .base .string, .str s) => c < 256 ∧ strOk .string s = true ∧ s.length < 256 ^ 4
+  | (c, .base .objpath, .str s) => c < 256 ∧ strOk .objpath s = true ∧ s.length < 256 ^ 4
+  | (c, .base .signature, .str s) => c < 256 ∧ strOk .signature s = true
+  | _ => False
+
+theorem padLen4_after (off : Nat) : padLen 4 (off + padLen 8 off + 1 + 1 + 2) = 0 := by
+  simp only [padLen]; omega
+
+theorem enc_simple (bo : ByteOrder) (off : Nat) (e : Entry) (bs : List UInt8) (h : Simple e) :
+    enc bo off elemTy (entryVal e) = some bs ↔ encOk e ∧ bs = rawEntry bo off e := by
+  cases h with
+  | u32 c n =>
+    rw [enc_entry]
+    simp only [variantTypeOk_base, sigBytes_base, List.length_singleton, enc, true_and, encOk, rawEntry]
+    have hch : UInt8.ofNat Base.u32.char.toNat = 117 := by decide
+    simp only [encBase_fixed (show Base.u32.fixedSize = some 4 from rfl), Base.align, padLen4_after, hch,
+      hdr8, zeros, List.replicate_zero, List.nil_append, Base.bound, Base.fixedSize]
+    constructor
+    · rintro ⟨hc, body, ⟨n', hn', hlt, rfl⟩, rfl⟩
+      cases hn'
+      exact ⟨⟨hc, hlt⟩, by simp⟩
+    · rintro ⟨⟨hc, hlt⟩, rfl⟩
+      exact ⟨hc, _, ⟨n, rfl, hlt, rfl⟩, by simp⟩
+  | str c s =>
+    rw [enc_entry]
+    simp only [variantTypeOk_base, sigBytes_base, List.length_singleton, enc, true_and, encOk, rawEntry]
+    have hch : UInt8.ofNat Base.string.char.toNat = 115 := by decide
+    simp only [encBase_str (Or.inl rfl), padLen4_after, hch,
+      hdr8, zeros, List.replicate_zero, List.nil_append]
+    constructor
+    · rintro ⟨hc, body, ⟨s', hs', hok, hlt, rfl⟩, rfl⟩
+      cases hs'
+      exact ⟨⟨hc, hok, hlt⟩, by simp⟩
+    · rintro ⟨⟨hc, hok, hlt⟩, rfl⟩
+      exact ⟨hc, _, ⟨s, rfl, hok, hlt, rfl⟩, by simp⟩
+  | path c s =>
+    rw [enc_entry]
+    simp only [variantTypeOk_base, sigBytes_base, List.length_singleton, enc, true_and, encOk, rawEntry]
+    have hch : UInt8.ofNat Base.objpath.char.toNat = 111 := by decide
+    simp only [encBase_str (Or.inr rfl), padLen4_after, hch,
+      hdr8, zeros, List.replicate_zero, List.nil_append]
+    constructor
+    · rintro ⟨hc, body, ⟨s', hs', hok, hlt, rfl⟩, rfl⟩
+      cases hs'
+      exact ⟨⟨hc, hok, hlt⟩, by simp⟩
+    · rintro ⟨⟨hc, hok, hlt⟩, rfl⟩
+      exact ⟨hc, _, ⟨s, rfl, hok, hlt, rfl⟩, by simp⟩
+  | sig c s =>
+    rw [enc_entry]
+    simp only [variantTypeOk_base, sigBytes_base, List.length_singleton, enc, true_and, encOk, rawEntry]
+    have hch : UInt8.ofNat Base.signature.char.toNat = 103 := by decide
+    simp only [encBase_sig, hch, hdr8]
+    constructor
+    · rintro ⟨hc, body, ⟨s', hs', hok, rfl⟩, rfl⟩
+      cases hs'
+      exact ⟨⟨hc, hok⟩, by simp⟩
+    · rintro ⟨⟨hc, hok⟩, rfl⟩
+      exact ⟨hc, _, ⟨s, rfl, hok, rfl⟩, by simp⟩
+
+def rawList (bo : ByteOrder) (off : Nat) : List Entry → List UInt8
+  | [] => []
+  | e :: es => rawEntry bo off e ++ rawList bo (off + (rawEntry bo off e).length) es
+
+theorem encList_simple (bo : ByteOrder) (es : List Entry) (off : Nat) (body : List UInt8)
+    (h : ∀ e ∈ es, Simple e) :
+    encList bo off elemTy (es.map entryVal) = some body ↔
+      (∀ e ∈ es, encOk e) ∧ body = rawList bo off es := by
+  induction es generalizing off body with
+  | nil => simp [encList, rawList, eq_comm]
+  | cons e es ih =>
+    have he := h e (by simp)
+    have hes : ∀ e ∈ es, Simple e := fun x hx => h x (by simp [hx])
+    simp only [List.map_cons, List.mem_cons, forall_eq_or_imp, rawList]
+    constructor
+    · intro henc
+      obtain ⟨b, r, hb, hr, rfl⟩ := encList_cons_some henc
+      obtain ⟨hok, rfl⟩ := (enc_simple bo off e b he).1 hb
+      obtain ⟨hoks, rfl⟩ := (ih _ r hes).1 hr
+      exact ⟨⟨hok, hoks⟩, rfl⟩
+    · rintro ⟨⟨hok, hoks⟩, rfl⟩
+      have hb := (enc_simple bo off e _ he).2 ⟨hok, rfl⟩
+      have hr := (ih (off + (rawEntry bo off e).length) _ hes).2 ⟨hoks, rfl⟩
+      simp only [encList, hb, hr]
+
+theorem rawList_append (bo : ByteOrder) (a b : List Entry) (off : Nat) :
+    rawList bo off (a ++ b) = rawList bo off a ++ rawList bo (off + (rawList bo off a).length) b := by
+  induction a generalizing off with
+  | nil => simp [rawList]
+  | cons e es ih =>
+    simp only [List.cons_append, rawList, ih, List.append_assoc, List.length_append, Nat.add_assoc]
+
+/-- appending the raw bytes of further entries to a buffer that starts with 16 bytes followed by entries -/
+theorem raw_step (bo : ByteOrder) (start : List UInt8) (es1 es2 : List Entry) (h : start.length = 16) :
+    (start ++ rawList bo 16 es1) ++ rawList bo (start ++ rawList bo 16 es1).length es2 =
+      start ++ rawList bo 16 (es1 ++ es2) := by
+  rw [rawList_append, List.length_append, h, List.append_assoc]
+
+/-- length of the string carried by an entry -/
+def entryStrLen : Entry → Nat
+  | (_, _, .str s) => s.length
+  | _ => 0
+
+theorem rawEntry_strLen (bo : ByteOrder) (off : Nat) (e : Entry) (h : Simple e) :
+    entryStrLen e ≤ (rawEntry bo off e).length := by
+  cases h <;> simp [entryStrLen, rawEntry] <;> omega
+
+theorem rawList_strLen (bo : ByteOrder) (es : List Entry) (off : Nat) (h : ∀ e ∈ es, Simple e)
+    (e : Entry) (he : e ∈ es) : entryStrLen e ≤ (rawList bo off es).length := by
+  induction es generalizing off with
+  | nil => simp at he
+  | cons x xs ih =>
+    simp only [rawList, List.length_append]
+    rcases List.mem_cons.1 he with rfl | hx
+    · have := rawEntry_strLen bo off e (h e (by simp)); omega
+    · have := ih (off + (rawEntry bo off x).length) (fun y hy => h y (by simp [hy])) hx; omega
+
+/-! ### the steps of `marshalHeader` -/
+
+def optU32 (c : Nat) (n? : Option Nat) : List Entry :=
+  match n? with | some n => [(c, .base .u32, .num n)] | none => []
+def optStr (c : Nat) (s? : Option (List UInt8)) : List Entry :=
+  match s? with | some s => [(c, .base .string, .str s)] | none => []
+def optPath (s? : Option (List UInt8)) : List Entry :=
+  match s? with | some s => [(1, .base .objpath, .str s)] | none => []
+def optSig (m : Msg) : List Entry :=
+  if m.body.isEmpty then [] else [(8, .base .signature, .str m.bodySig)]
+def optFds (m : Msg) : List Entry :=
+  if m.nfds = 0 then [] else [(9, .base .u32, .num m.nfds)]
+
+theorem msgEntries_eq (m : Msg) :
+    msgEntries m = optU32 5 m.replySerial ++ optStr 2 m.interface ++ optStr 6 m.destination ++
+      optStr 7 m.sender ++ optStr 3 m.member ++ optPath m.path ++ optStr 4 m.errorName ++
+      optSig m ++ optFds m := rfl
+
+theorem chain_u32 (bo : ByteOrder) (c : Nat) (n? : Option Nat) (start : List UInt8) (es : List Entry)
+    (h : start.length = 16) :
+    putU32Field bo c n? (start ++ rawList bo 16 es) = start ++ rawList bo 16 (es ++ optU32 c n?) := by
+  rw [← raw_step bo start es _ h]
+  cases n? with
+  | none => simp [putU32Field, optU32, rawList]
+  | some n => simp [putU32Field, optU32, rawList, rawEntry, fieldStart_eq]
+
+theorem chain_str (bo : ByteOrder) (c : Nat) (s? : Option (List UInt8)) (start : List UInt8)
+    (es : List Entry) (h : start.length = 16) :
+    putStrField bo c 115 s? (start ++ rawList bo 16 es) =
+      if ∀ s, s? = some s → nameOk c s = true then some (start ++ rawList bo 16 (es ++ optStr c s?))
+      else none := by
+  rw [← raw_step bo start es _ h]
+  cases s? with
+  | none => simp [putStrField, optStr, rawList]
+  | some s =>
+    by_cases hn : nameOk c s = true
+    · simp [putStrField, optStr, rawList, rawEntry, fieldStart_eq, hn]
+    · simp [putStrField, hn]
+
+theorem chain_path (bo : ByteOrder) (s? : Option (List UInt8)) (start : List UInt8)
+    (es : List Entry) (h : start.length = 16) :
+    putStrField bo 1 111 s? (start ++ rawList bo 16 es) =
+      if ∀ s, s? = some s → nameOk 1 s = true then some (start ++ rawList bo 16 (es ++ optPath s?))
+      else none := by
+  rw [← raw_step bo start es _ h]
+  cases s? with
+  | none => simp [putStrField, optPath, rawList]
+  | some s =>
+    by_cases hn : nameOk 1 s = true
+    · simp [putStrField, optPath, rawList, rawEntry, fieldStart_eq, hn]
+    · simp [putStrField, hn]
+
+theorem chain_sig (m : Msg) (start : List UInt8) (es : List Entry) (h : start.length = 16) :
+    (if m.body.isEmpty then some (start ++ rawList m.bo 16 es)
+      else if Sig.validateSignature (latin1 m.bodySig) then
+        some (fieldStart 8 103 (start ++ rawList m.bo 16 es) ++
+          (UInt8.ofNat m.bodySig.length :: (m.bodySig ++ [0])))
+      else none) =
+      if m.body.isEmpty = false → Sig.validateSignature (latin1 m.bodySig) = true then
+        some (start ++ rawList m.bo 16 (es ++ optSig m))
+      else none := by
+  rw [← raw_step m.bo start es _ h]
+  by_cases hb : m.body.isEmpty = true
+  · simp [hb, optSig, rawList]
+  · by_cases hv : Sig.validateSignature (latin1 m.bodySig) = true
+    · simp [hb, hv, optSig, rawList, rawEntry, fieldStart_eq]
+    · simp [hb, hv]
+
+theorem chain_fds (m : Msg) (start : List UInt8) (es : List Entry) (h : start.length = 16) :
+    (if m.nfds = 0 then start ++ rawList m.bo 16 es
+      else putU32Field m.bo 9 (some m.nfds) (start ++ rawList m.bo 16 es)) =
+      start ++ rawList m.bo 16 (es ++ optFds m) := by
+  by_cases hn : m.nfds = 0
+  · simp [hn, optFds]
+  · rw [if_neg hn, chain_u32 _ _ _ _ _ h]; simp [optFds, optU32, hn]
+
+/-! ### `marshalHeader` in closed form -/
+
+/-- everything `marshal` validates before writing -/
+def NamesOk (m : Msg) : Prop :=
+  (∀ s, m.interface = some s → nameOk 2 s = true) ∧ (∀ s, m.destination = some s → nameOk 6 s = true) ∧
+  (∀ s, m.sender = some s → nameOk 7 s = true) ∧ (∀ s, m.member = some s → nameOk 3 s = true) ∧
+  (∀ s, m.path = some s → nameOk 1 s = true) ∧ (∀ s, m.errorName = some s → nameOk 4 s = true) ∧
+  (m.body.isEmpty = false → Sig.validateSignature (latin1 m.bodySig) = true)
+
+/-- the bytes `marshal` produces when it does not refuse -/
+def marshalOut (m : Msg) (serial : Nat) : List UInt8 :=
+  padTo 8 (fixedBytes ⟨m.bo, m.typ, m.flags, m.body.length, serial⟩ ++
+    (bytesOf m.bo 4 (rawList m.bo 16 (msgEntries m)).length ++ rawList m.bo 16 (msgEntries m)))
+
+theorem putStrField_some (bo : ByteOrder) (c : Nat) (ch : UInt8) (s? : Option (List UInt8))
+    (buf b : List UInt8) (h : putStrField bo c ch s? buf = some b) :
+    ∀ s, s? = some s → nameOk c s = true := by
+  intro s hs; subst hs
+  unfold putStrField at h
+  simp only at h
+  split at h
+  · assumption
+  · simp at h
+
+theorem marshalHeader_names (m : Msg) (serial : Nat) (out : List UInt8)
+    (h : marshalHeader m serial = some out) : 1 ≤ m.typ ∧ m.typ ≤ 4 ∧ NamesOk m := by
+  unfold marshalHeader at h
+  split at h
+  · simp at h
+  · rename_i ht
+    simp only [] at h
+    split at h
+    · simp at h
+    · rename_i b2 h2
+      split at h
+      · simp at h
+      · rename_i b3 h3
+        split at h
+        · simp at h
+        · rename_i b4 h4
+          split at h
+          · simp at h
+          · rename_i b5 h5
+            split at h
+            · simp at h
+            · rename_i b6 h6
+              split at h
+              · simp at h
+              · rename_i b7 h7
+                split at h
+                · simp at h
+                · rename_i b8 h8
+                  refine ⟨Nat.pos_of_ne_zero (fun h => ht (Or.inl h)), Nat.le_of_not_lt (fun h => ht (Or.inr h)),
+                    putStrField_some _ _ _ _ _ _ h2, putStrField_some _ _ _ _ _ _ h3,
+                    putStrField_some _ _ _ _ _ _ h4, putStrField_some _ _ _ _ _ _ h5,
+                    putStrField_some _ _ _ _ _ _ h6, putStrField_some _ _ _ _ _ _ h7, ?_⟩
+                  intro hb
+                  rw [if_neg (by simp [hb])] at h8
+                  split at h8
+                  · assumption
+                  · simp at h8
+
+theorem marshalHeader_ok (m : Msg) (serial : Nat) (h1 : 1 ≤ m.typ) (h4 : m.typ ≤ 4) (hn : NamesOk m) :
+    marshalHeader m serial =
+      if (rawList m.bo 16 (msgEntries m)).length > maxArrayLen then none
+      else if (marshalOut m serial).length + m.body.length > maxMessageLen then none
+      else some (marshalOut m serial) := by
+  obtain ⟨n2, n6, n7, n3, n1, n4, n8⟩ := hn
+  unfold marshalHeader
+  have htyp : ¬(m.typ = 0 ∨ 4 < m.typ) := by
+    rintro (h | h)
+    · rw [h] at h1; exact absurd h1 (by decide)
+    · exact absurd h4 (Nat.not_le_of_lt h)
+  rw [if_neg htyp]
+  simp only []
+  generalize hstart : ([if m.bo = ByteOrder.le then (108 : UInt8) else 66, UInt8.ofNat m.typ,
+    UInt8.ofNat m.flags, 1] ++ (bytesOf m.bo 4 m.body.length ++ (bytesOf m.bo 4 serial ++ [0, 0, 0, 0]))) = start
+  have hl : start.length = 16 := by subst hstart; simp
+  have h0 : start = start ++ rawList m.bo 16 [] := by simp [rawList]
+  rw [h0, chain_u32 _ _ _ _ _ hl, chain_str _ _ _ _ _ hl, if_pos n2]
+  simp only []
+  rw [chain_str _ _ _ _ _ hl, if_pos n6]
+  simp only []
+  rw [chain_str _ _ _ _ _ hl, if_pos n7]
+  simp only []
+  rw [chain_str _ _ _ _ _ hl, if_pos n3]
+  simp only []
+  rw [chain_path _ _ _ _ hl, if_pos n1]
+  simp only []
+  rw [chain_str _ _ _ _ _ hl, if_pos n4]
+  simp only []
+  rw [chain_sig _ _ _ hl, if_pos n8]
+  simp only []
+  rw [chain_fds _ _ _ hl]
+  simp only [List.nil_append, ← msgEntries_eq]
+  have hfix : start = fixedBytes ⟨m.bo, m.typ, m.flags, m.body.length, serial⟩ ++ [0, 0, 0, 0] := by
+    subst hstart; simp [fixedBytes]
+  have ht : (start ++ rawList m.bo 16 (msgEntries m)).take 12 =
+      fixedBytes ⟨m.bo, m.typ, m.flags, m.body.length, serial⟩ := by
+    rw [hfix, List.append_assoc]
+    exact List.take_left' (by simp [fixedBytes])
+  have hd : (start ++ rawList m.bo 16 (msgEntries m)).drop 16 = rawList m.bo 16 (msgEntries m) :=
+    List.drop_left' hl
+  have hlen : (start ++ rawList m.bo 16 (msgEntries m)).length - 16 = (rawList m.bo 16 (msgEntries m)).length := by
+    simp [hl]
+  simp only [ht, hd, hlen]
+  rfl
+
+/-! ### the validity conditions on both sides -/
+
+theorem mem_optU32 (c : Nat) (n? : Option Nat) (e : Entry) :
+    e ∈ optU32 c n? ↔ ∃ n, n? = some n ∧ e = (c, .base .u32, .num n) := by
+  cases n? <;> simp [optU32]
+theorem mem_optStr (c : Nat) (s? : Option (List UInt8)) (e : Entry) :
+    e ∈ optStr c s? ↔ ∃ s, s? = some s ∧ e = (c, .base .string, .str s) := by
+  cases s? <;> simp [optStr]
+theorem mem_optPath (s? : Option (List UInt8)) (e : Entry) :
+    e ∈ optPath s? ↔ ∃ s, s? = some s ∧ e = (1, .base .objpath, .str s) := by
+  cases s? <;> simp [optPath]
+theorem mem_optSig (m : Msg) (e : Entry) :
+    e ∈ optSig m ↔ m.body.isEmpty = false ∧ e = (8, .base .signature, .str m.bodySig) := by
+  by_cases h : m.body.isEmpty = true <;> simp [optSig, h]
+theorem mem_optFds (m : Msg) (e : Entry) :
+    e ∈ optFds m ↔ m.nfds ≠ 0 ∧ e = (9, .base .u32, .num m.nfds) := by
+  by_cases h : m.nfds = 0 <;> simp [optFds, h]
+
+theorem mem_msgEntries (m : Msg) (e : Entry) :
+    e ∈ msgEntries m ↔
+      (∃ n, m.replySerial = some n ∧ e = (5, .base .u32, .num n)) ∨
+      (∃ s, m.interface = some s ∧ e = (2, .base .string, .str s)) ∨
+      (∃ s, m.destination = some s ∧ e = (6, .base .string, .str s)) ∨
+      (∃ s, m.sender = some s ∧ e = (7, .base .string, .str s)) ∨
+      (∃ s, m.member = some s ∧ e = (3, .base .string, .str s)) ∨
+      (∃ s, m.path = some s ∧ e = (1, .base .objpath, .str s)) ∨
+      (∃ s, m.errorName = some s ∧ e = (4, .base .string, .str s)) ∨
+      (m.body.isEmpty = false ∧ e = (8, .base .signature, .str m.bodySig)) ∨
+      (m.nfds ≠ 0 ∧ e = (9, .base .u32, .num m.nfds)) := by
+  rw [msgEntries_eq]
+  simp only [List.mem_append, mem_optU32, mem_optStr, mem_optPath, mem_optSig, mem_optFds, or_assoc]
+
+theorem msgEntries_simple (m : Msg) : ∀ e ∈ msgEntries m, Simple e := by
+  intro e he
+  rw [mem_msgEntries] at he
+  rcases he with ⟨n, _, rfl⟩ | ⟨s, _, rfl⟩ | ⟨s, _, rfl⟩ | ⟨s, _, rfl⟩ | ⟨s, _, rfl⟩ | ⟨s, _, rfl⟩ |
+    ⟨s, _, rfl⟩ | ⟨_, rfl⟩ | ⟨_, rfl⟩ <;> constructor
+
+theorem names_entryField (m : Msg) (hn : NamesOk m) :
+    ∀ e ∈ msgEntries m, e.1 ≠ 5 → e.1 ≠ 9 → ∃ f, entryField e = some (some f) := by
+  obtain ⟨n2, n6, n7, n3, n1, n4, n8⟩ := hn
+  intro e he h5 h9
+  rw [mem_msgEntries] at he
+  rcases he with ⟨n, _, rfl⟩ | ⟨s, hs, rfl⟩ | ⟨s, hs, rfl⟩ | ⟨s, hs, rfl⟩ | ⟨s, hs, rfl⟩ | ⟨s, hs, rfl⟩ |
+    ⟨s, hs, rfl⟩ | ⟨_, rfl⟩ | ⟨_, rfl⟩
+  · exact absurd rfl h5
+  · exact ⟨_, (entryField_interface _ _ _).2 ⟨s, rfl, rfl, n2 s hs, rfl⟩⟩
+  · exact ⟨_, (entryField_destination _ _ _).2 ⟨s, rfl, rfl, n6 s hs, rfl⟩⟩
+  · exact ⟨_, (entryField_sender _ _ _).2 ⟨s, rfl, rfl, n7 s hs, rfl⟩⟩
+  · exact ⟨_, (entryField_member _ _ _).2 ⟨s, rfl, rfl, n3 s hs, rfl⟩⟩
+  · exact ⟨_, (entryField_path _ _ _).2 ⟨s, rfl, rfl, rfl⟩⟩
+  · exact ⟨_, (entryField_errorName _ _ _).2 ⟨s, rfl, rfl, n4 s hs, rfl⟩⟩
+  · exact ⟨_, (entryField_sig _ _ _).2 ⟨_, rfl, rfl, rfl⟩⟩
+  · exact absurd rfl h9
+
+theorem names_encOk (m : Msg) (serial : Nat) (hr : msgInRange m serial) (hn : NamesOk m)
+    (hsz : ∀ e ∈ msgEntries m, entryStrLen e < 256 ^ 4) : ∀ e ∈ msgEntries m, encOk e := by
+  obtain ⟨n2, n6, n7, n3, n1, n4, n8⟩ := hn
+  obtain ⟨_, _, _, hfds, hrs⟩ := hr
+  intro e he
+  have hlen := hsz e he
+  rw [mem_msgEntries] at he
+  rcases he with ⟨n, hs, rfl⟩ | ⟨s, hs, rfl⟩ | ⟨s, hs, rfl⟩ | ⟨s, hs, rfl⟩ | ⟨s, hs, rfl⟩ | ⟨s, hs, rfl⟩ |
+    ⟨s, hs, rfl⟩ | ⟨hb, rfl⟩ | ⟨_, rfl⟩
+  · exact ⟨by decide, hrs n hs⟩
+  · exact ⟨by decide, nameOk_strOk 2 s (by decide) (n2 s hs), hlen⟩
+  · exact ⟨by decide, nameOk_strOk 6 s (by decide) (n6 s hs), hlen⟩
+  · exact ⟨by decide, nameOk_strOk 7 s (by decide) (n7 s hs), hlen⟩
+  · exact ⟨by decide, nameOk_strOk 3 s (by decide) (n3 s hs), hlen⟩
+  · exact ⟨by decide, n1 s hs, hlen⟩
+  · exact ⟨by decide, nameOk_strOk 4 s (by decide) (n4 s hs), hlen⟩
+  · exact ⟨by decide, n8 hb⟩
+  · exact ⟨by decide, hfds⟩
+
+theorem encOk_names (m : Msg) (hok : ∀ e ∈ msgEntries m, encOk e)
+    (hef : ∀ e ∈ msgEntries m, e.1 ≠ 5 → e.1 ≠ 9 → ∃ f, entryField e = some (some f)) : NamesOk m := by
+  refine ⟨?_, ?_, ?_, ?_, ?_, ?_, ?_⟩
+  · intro s hs
+    have hm : ((2, .base .string, .str s) : Entry) ∈ msgEntries m := by rw [mem_msgEntries]; simp [hs]
+    obtain ⟨f, hf⟩ := hef _ hm (by simp) (by simp)
+    obtain ⟨s', _, hs', hn, _⟩ := (entryField_interface _ _ _).1 hf
+    cases hs'; exact hn
+  · intro s hs
+    have hm : ((6, .base .string, .str s) : Entry) ∈ msgEntries m := by rw [mem_msgEntries]; simp [hs]
+    obtain ⟨f, hf⟩ := hef _ hm (by simp) (by simp)
+    obtain ⟨s', _, hs', hn, _⟩ := (entryField_destination _ _ _).1 hf
+    cases hs'; exact hn
+  · intro s hs
+    have hm : ((7, .base .string, .str s) : Entry) ∈ msgEntries m := by rw [mem_msgEntries]; simp [hs]
+    obtain ⟨f, hf⟩ := hef _ hm (by simp) (by simp)
+    obtain ⟨s', _, hs', hn, _⟩ := (entryField_sender _ _ _).1 hf
+    cases hs'; exact hn
+  · intro s hs
+    have hm : ((3, .base .string, .str s) : Entry) ∈ msgEntries m := by rw [mem_msgEntries]; simp [hs]
+    obtain ⟨f, hf⟩ := hef _ hm (by simp) (by simp)
+    obtain ⟨s', _, hs', hn, _⟩ := (entryField_member _ _ _).1 hf
+    cases hs'; exact hn
+  · intro s hs
+    have hm : ((1, .base .objpath, .str s) : Entry) ∈ msgEntries m := by rw [mem_msgEntries]; simp [hs]
+    exact (hok _ hm).2.1
+  · intro s hs
+    have hm : ((4, .base .string, .str s) : Entry) ∈ msgEntries m := by rw [mem_msgEntries]; simp [hs]
+    obtain ⟨f, hf⟩ := hef _ hm (by simp) (by simp)
+    obtain ⟨s', _, hs', hn, _⟩ := (entryField_errorName _ _ _).1 hf
+    cases hs'; exact hn
+  · intro hb
+    have hm : ((8, .base .signature, .str m.bodySig) : Entry) ∈ msgEntries m := by
+      rw [mem_msgEntries]; simp [hb]
+    exact (hok _ hm).2
+
+/-! ### the marshaller against `encList` -/
+
+theorem marshalOut_length (m : Msg) (serial : Nat) :
+    (marshalOut m serial).length = 16 + (rawList m.bo 16 (msgEntries m)).length +
+      padLen 8 (16 + (rawList m.bo 16 (msgEntries m)).length) := by
+  simp only [marshalOut, padTo, fixedBytes, List.length_append, bytesOf_length, zeros_length,
+    List.length_cons, List.length_nil]
+  have : 0 + 1 + 1 + 1 + 1 + (4 + 4) + (4 + (rawList m.bo 16 (msgEntries m)).length) =
+      16 + (rawList m.bo 16 (msgEntries m)).length := by omega
+  rw [this]
+
+theorem marshalHeader_core (m : Msg) (serial : Nat) (hr : msgInRange m serial) (out : List UInt8) :
+    marshalHeader m serial = some out ↔
+      (1 ≤ m.typ ∧ m.typ ≤ 4 ∧
+       ∃ body, encList m.bo 16 elemTy ((msgEntries m).map entryVal) = some body ∧
+         body.length ≤ maxArrayLen ∧
+         out = padTo 8 (fixedBytes ⟨m.bo, m.typ, m.flags, m.body.length, serial⟩ ++
+                 (bytesOf m.bo 4 body.length ++ body)) ∧
+         out.length + m.body.length ≤ maxMessageLen ∧
+         (∀ e ∈ msgEntries m, e.1 ≠ 5 → e.1 ≠ 9 → ∃ f, entryField e = some (some f))) := by
+  constructor
+  · intro h
+    obtain ⟨h1, h4, hn⟩ := marshalHeader_names m serial out h
+    rw [marshalHeader_ok m serial h1 h4 hn] at h
+    split at h
+    · simp at h
+    · rename_i harr
+      split at h
+      · simp at h
+      · rename_i hsz
+        simp only [Option.some.injEq] at h
+        subst h
+        have hlen := marshalOut_length m serial
+        have hstr : ∀ e ∈ msgEntries m, entryStrLen e < 256 ^ 4 := by
+          intro e he
+          have := rawList_strLen m.bo (msgEntries m) 16 (msgEntries_simple m) e he
+          have hmax : maxMessageLen < 256 ^ 4 := by decide
+          omega
+        have hok := names_encOk m serial hr hn hstr
+        refine ⟨h1, h4, rawList m.bo 16 (msgEntries m),
+          (encList_simple m.bo _ 16 _ (msgEntries_simple m)).2 ⟨hok, rfl⟩, by omega, rfl, by omega,
+          names_entryField m hn⟩
+  · rintro ⟨h1, h4, body, henc, harr, rfl, hsz, hef⟩
+    obtain ⟨hok, rfl⟩ := (encList_simple m.bo _ 16 _ (msgEntries_simple m)).1 henc
+    have hn := encOk_names m hok hef
+    rw [marshalHeader_ok m serial h1 h4 hn]
+    change (marshalOut m serial).length + m.body.length ≤ maxMessageLen at hsz
+    rw [if_neg (by omega), if_neg (by omega)]
+    rfl
+
+/-- `marshal` refuses a header field array above the 64 MiB array limit -/
+theorem marshalHeader_array_limit (m : Msg) (serial : Nat) (out : List UInt8)
+    (h : marshalHeader m serial = some out) : (rawList m.bo 16 (msgEntries m)).length ≤ maxArrayLen := by
+  obtain ⟨h1, h4, hn⟩ := marshalHeader_names m serial out h
+  rw [marshalHeader_ok m serial h1 h4 hn] at h
+  split at h
+  · simp at h
+  · omega
 
 end Rustbus.Header
